@@ -45,7 +45,8 @@ RULE = ("conflict-free proposal sets (2-6 actors, bounds built around a common a
         "the exclusion zone (with/without preference) above narrowing intermediate actors; reports queried at every "
         "priority level (actors, between, below, above) with probes x at every interval end ± {0,1/2} and at the ends "
         "of the reported range; history scripts (staggered proposals, refreshes, drops around the expiry instant of "
-        "a silent actor, status reads before any new proposal); non-trivial = >=2 proposals with bounds and an "
+        "a silent actor, status reads before any new proposal); every 8th case/script mixes in tiny non-zero magnitudes "
+        "(±2^-40, ±2^-54, ±2^-60, smallest subnormal, the doubles at/around 1e-9) for preferences and bounds; non-trivial = >=2 proposals with bounds and an "
         "exclusion zone or a preference outside the admissible set; distinct by canonical JSON hash")
 
 HALF = Fraction(1, 2)
@@ -150,7 +151,14 @@ def expected_target(sb, props):
 
 
 # --------------------------------------------------------------------------- generators
-def gen_case(rng, distinct: bool) -> dict:
+def _tiny_or(rng, tiny: bool, v, p: float):
+    """In tiny mode replace a drawn value by a tiny non-zero magnitude with probability p."""
+    return g.tiny(rng) if tiny and rng.random() < p else v
+
+
+def gen_case(rng, distinct: bool, tiny: bool = False) -> dict:
+    """tiny: preferences (p=1/2) and bounds (p=1/5, kept on the right side of the core point) are replaced by tiny
+    non-zero magnitudes (2^-40 … smallest subnormal, the doubles around 1e-9)."""
     anchors = g.lattice(rng)
     for _ in range(50):
         sb = g.gen_sb(rng, anchors, True)
@@ -168,17 +176,17 @@ def gen_case(rng, distinct: bool) -> dict:
         srcs = rng.sample(g.SRC_IDS, n)
         props = []
         for pr, src in zip(prios, srcs):
-            plo = None if rng.random() < 0.4 else min(core, g.near(rng, anchors))
-            phi = None if rng.random() < 0.4 else max(core, g.near(rng, anchors))
+            plo = None if rng.random() < 0.4 else min(core, _tiny_or(rng, tiny, g.near(rng, anchors), 0.2))
+            phi = None if rng.random() < 0.4 else max(core, _tiny_or(rng, tiny, g.near(rng, anchors), 0.2))
             if rng.random() < 0.15:  # exactly at the core / zone edge
                 plo = core
-            pref = None if rng.random() < 0.35 else g.near(rng, anchors)
+            pref = None if rng.random() < 0.35 else g.tie_safe(_tiny_or(rng, tiny, g.near(rng, anchors), 0.7), [sb])
             props.append({"prio": pr, "src": src, "pref": rat(pref), "lo": rat(plo), "hi": rat(phi), "created": "0"})
         return {"sb": sb, "props": props}
     return {"sb": {"incl": ["-10", "10"], "excl": None}, "props": []}
 
 
-def gen_void_case(rng) -> dict:
+def gen_void_case(rng, tiny: bool = False) -> dict:
     """3-6 actors with distinct priorities and a non-trivial exclusion zone; 1-2 actors (not the lowest) state
     bounds with BOTH ends strictly inside the zone (with / without a preference); the others are built around a
     common admissible core point, and at least one actor below the first void one states bounds."""
@@ -195,6 +203,8 @@ def gen_void_case(rng) -> dict:
         hi = ehi - 1
     ins = sorted(x for x in {elo + HALF, elo + 1, ehi - HALF, ehi - 1, Fraction(0), HALF, -HALF, Fraction(1),
                              Fraction(-1), (elo + ehi) / 2} if elo < x < ehi)
+    if tiny:   # tiny non-zero magnitudes are strictly inside every non-trivial zone
+        ins = sorted(set(ins) | {g.tiny(rng) for _ in range(4)})
     adm = sorted(x for x in {lo, hi, elo, ehi, elo - HALF, elo - 1, ehi + HALF, ehi + 1, lo + 1, hi - 1,
                              (lo + elo) / 2, (hi + ehi) / 2} if lo <= x <= hi and not elo < x < ehi)
     core = rng.choice(adm)
@@ -214,6 +224,8 @@ def gen_void_case(rng) -> dict:
             plo, phi = min(a, b), max(a, b)
             r = rng.random()
             pref = None if r < 0.4 else (rng.choice(ins) if r < 0.6 else g.near(rng, anchors))
+            if tiny and pref is not None and rng.random() < 0.5:
+                pref = g.tiny(rng)
         else:
             plo = None if rng.random() < 0.35 else min(core, g.near(rng, anchors))
             phi = None if rng.random() < 0.35 else max(core, g.near(rng, anchors))
@@ -224,10 +236,13 @@ def gen_void_case(rng) -> dict:
                     phi = max(core, g.near(rng, anchors))
             if rng.random() < 0.15:
                 plo = core
-            pref = None if rng.random() < 0.35 else g.near(rng, anchors)
+            pref = None if rng.random() < 0.35 else _tiny_or(rng, tiny, g.near(rng, anchors), 0.5)
         props.append({"prio": pr, "src": src, "pref": rat(pref), "lo": rat(plo), "hi": rat(phi), "created": "0"})
     rng.shuffle(props)
-    return {"sb": {"incl": [rat(lo), rat(hi)], "excl": [rat(elo), rat(ehi)]}, "props": props}
+    sb = {"incl": [rat(lo), rat(hi)], "excl": [rat(elo), rat(ehi)]}
+    for p in props:
+        p["pref"] = rat(g.tie_safe(F(p["pref"]), [sb]))
+    return {"sb": sb, "props": props}
 
 
 def query_levels(props) -> list[int]:
@@ -246,10 +261,11 @@ def gen_expiry_script(rng) -> dict:
     (so that some but not all proposals expire); optional re-evaluation without a proposal; status reads for
     several priority levels BEFORE any new proposal arrives}."""
     r = rng.random()
-    base = gen_void_case(rng) if r < 0.35 else gen_case(rng, distinct=rng.random() < 0.85)
+    tiny = rng.random() < 0.12
+    base = gen_void_case(rng, tiny) if r < 0.35 else gen_case(rng, distinct=rng.random() < 0.85, tiny=tiny)
     sb, props = base["sb"], base["props"]
     if len(props) < 2:
-        base = gen_void_case(rng)
+        base = gen_void_case(rng, tiny)
         sb, props = base["sb"], base["props"]
     levels = query_levels(props)
     t = Fraction(rng.randint(0, 50))
@@ -259,7 +275,7 @@ def gen_expiry_script(rng) -> dict:
     def propose(p):
         nonlocal t
         q = dict(p, created=rat(t))
-        if rng.random() < 0.2:
+        if rng.random() < 0.2 and (p["pref"] is None or F(p["pref"]).denominator <= 2):
             q["pref"] = rat(None if rng.random() < 0.3 else (F(p["pref"]) or Fraction(0)) + rng.choice([-1, 1, HALF]))
         ops.append({"op": "calc", "p": q, "sb": sb, "must": rng.random() < 0.3})
         created[(p["prio"], p["src"])] = t
@@ -309,7 +325,7 @@ def probe_points(sb, props) -> list[Fraction]:
     ends = {I0[0], I0[1], Fraction(0)} | ({ex[0], ex[1]} if ex else set())
     for p in props:
         ends |= {F(p[k]) for k in ("lo", "hi", "pref") if p[k] is not None}
-    return sorted({e_ + d for e_ in ends for d in (0, HALF, -HALF)})
+    return sorted(x for x in {e_ + d for e_ in ends for d in (0, HALF, -HALF)} if g.float_exact(x))
 
 
 def pick_probes(rng, probes, reps, n) -> list[Fraction]:
@@ -322,7 +338,7 @@ def pick_probes(rng, probes, reps, n) -> list[Fraction]:
         b = g.report_bounds(rep)
         if b is not None:
             extra |= {b[0], b[1], b[0] - HALF, b[0] + HALF, b[1] - HALF, b[1] + HALF}
-    return sorted(extra)
+    return sorted(x for x in extra if g.float_exact(x))
 
 
 def check_report(ctx: Ctx, sb, props, q, rep, xs, doc, now="0", base=None) -> list[tuple[Fraction, list]]:
@@ -400,6 +416,8 @@ def check_case(ctx: Ctx, case: dict, rng, full: bool = False) -> dict:
             script_ops.append({"op": "status", "prio": q, "sb": sb})
             if q not in {p["prio"] for p in props}:
                 tags.add("query-between")
+    if any(p[k] is not None and 0 < abs(F(p[k])) < Fraction(1, 10 ** 6) for p in props for k in ("pref", "lo", "hi")):
+        tags.add("tiny-magnitude")
     if any(p["lo"] is not None or p["hi"] is not None for p in props):
         tags.add("bounded")
     if ex:
@@ -502,15 +520,16 @@ def run(ctx: Ctx) -> None:
         (do_history if "ops" in case else do_case)(case, ctx.subrng("corpus", i), True)
     for i in range(ctx.budget(700, 16000)):
         rng = ctx.subrng("case", i)
-        do_case(gen_case(rng, distinct=rng.random() < 0.8), ctx.subrng("probe", i))
+        do_case(gen_case(rng, distinct=rng.random() < 0.8, tiny=i % 5 == 4), ctx.subrng("probe", i))
     for i in range(ctx.budget(200, 3000)):
-        do_case(gen_void_case(ctx.subrng("void", i)), ctx.subrng("void-probe", i))
+        do_case(gen_void_case(ctx.subrng("void", i), tiny=i % 8 == 7), ctx.subrng("void-probe", i))
     for i in range(ctx.budget(250, 3000)):
         do_history(gen_expiry_script(ctx.subrng("expiry", i)), ctx.subrng("expiry-probe", i))
     # general scripts (changing bounds, replacements, arbitrary proposals): same history oracle where it applies
     for i in range(ctx.budget(300, 8000)):
         rng = ctx.subrng("script", i)
-        do_history(g.gen_script(rng, rng.randint(4, 20), in_domain=True, distinct_prios=rng.random() < 0.7),
+        do_history(g.gen_script(rng, rng.randint(4, 20), in_domain=True, distinct_prios=rng.random() < 0.7,
+                                tiny_values=i % 8 == 7),
                    ctx.subrng("script-probe", i))
     # correspondence: every script (proposals, drops, every adjust/status probe) through the Lean model
     ctx.compare("Matryoshka", scripts, impl_outs, what="C04 script outputs")
